@@ -39,7 +39,7 @@ def run(case: dict, lean: Lean) -> Outcome:
     else: ds = from_interactions_df(df)
     du, di = case["damp_user"], case["damp_item"]
     uid = {int(u): k for k, u in enumerate(ds.users.ids())}; iid = {int(i): k for k, i in enumerate(ds.items.ids())}
-    failed = []; corr = True
+    failed = []; corr = True; classes_extra = []
     # (1) learned offsets vs the model (accumulate-then-divide) and the documented definition
     bm = BiasModel.learn(ds, {"user": du, "item": di})
     # the documented ways of giving the damping say the same thing: a pair (user, item); one number for both; a dictionary that leaves
@@ -68,6 +68,22 @@ def run(case: dict, lean: Lean) -> Outcome:
         for i, s in zip(cand, out):
             want = g + (ib[iid[i]] if i in iid else 0.0) + (ub[uid[u]] if u in uid else 0.0)
             if math.isnan(s) or not _close(float(s), want, 2e-4): failed.append(f"score({u},{i}) = {s}, offsets sum to {want}")
+    # (2b) "the sum of the applicable offsets" for every choice of which entities carry offsets: items only (global + item offset), users only
+    #      (the user offsets are then damped means of the globally-centred ratings — there is no item offset to take out), neither (the global mean)
+    for ents in (("item",), ("user",), ()):
+        classes_extra.append("entities: " + ("+".join(ents) or "none"))
+        se = BiasScorer(damping={"user": du, "item": di}, entities=list(ents)); se.train(ds)
+        ub1 = {}
+        if "user" in ents:
+            for u in uid:
+                rs = [Fraction(r).limit_denominator(1000) - Fraction(g).limit_denominator(10**9) - (Fraction(ib[iid[i]]).limit_denominator(10**9) if "item" in ents else 0) for uu, i, r, _ in rows if uu == u]
+                den = len(rs) + Fraction(du).limit_denominator(1000)
+                ub1[u] = float(sum(rs) / den) if den != 0 else 0.0
+        for u in list(uid)[:3] + [4242]:
+            out = se(RecQuery(user_id=u), ItemList(item_ids=cand)).scores()
+            for i, s_ in zip(cand, out):
+                want = g + (ib[iid[i]] if ("item" in ents and i in iid) else 0.0) + (ub1.get(u, 0.0) if "user" in ents else 0.0)
+                if math.isnan(s_) or not _close(float(s_), want, 2e-4): failed.append(f"entities {list(ents)}: score({u},{i}) = {s_}, the applicable offsets sum to {want}")
     # (3) history-based user offset: same damped mean over the supplied ratings
     if case["hist"]:
         hist = list({h[0]: h for h in case["hist"]}.values())
@@ -127,7 +143,7 @@ def run(case: dict, lean: Lean) -> Outcome:
         failed.append(f"time-bounded popularity raised {type(e).__name__}")
         if case["dt_times"] and isinstance(e, TypeError) and len(failed) == 1: key = "TimeBoundedPopScore on a date-time timestamp column raises TypeError"
     spec = not failed
-    classes = []
+    classes = sorted(set(classes_extra))
     if du == 0 and di == 0: classes.append("zero damping")
     if du != di: classes.append("per-entity damping")
     if any(c == 1 for c in counts.values()): classes.append("item with one rating")
